@@ -4,6 +4,7 @@ Every verdict comes from the solver: `unsat` = discharged, `sat` = candidate
 counterexample (believed only after replay on the real code), `unknown` /
 timeout = undecided (never success).
 """
+import os
 import time
 import numpy as np
 import z3
@@ -145,7 +146,14 @@ class Result(dict):
 
 class Prover:
   def __init__(self, timeout_s=20.0, first_s=1.5, max_cases=4096, logic=None, fresh=False):
-    self.timeout_s = timeout_s
+    # solver timeouts are wall-clock: on an oversubscribed machine (several checks at once) a query that needs
+    # 10 s of CPU may not finish in 30 s of wall time and would be reported undecided; stretch them with the load
+    try:
+      scale = max(1.0, min(4.0, os.getloadavg()[0] / max(1, os.cpu_count() or 1)))
+    except OSError:
+      scale = 1.0
+    self.load_scale = scale
+    self.timeout_s = timeout_s * scale
     self.first_s = first_s
     self.max_cases = max_cases
     self.queries = 0
@@ -188,7 +196,7 @@ class Prover:
     """Try to show assume => goal.  Returns a Result (also appended to self.results)."""
     t0 = time.time()
     q0, s0 = self.queries, self.solver_s
-    timeout_s = timeout_s or self.timeout_s
+    timeout_s = (timeout_s * self.load_scale) if timeout_s else self.timeout_s
     assume = [a for a in assume if is_z3(a) or a is not True]
     if any(a is False for a in assume):
       res = Result(name=name, status='unsat', cases=0, note='assumption literally false', kind=kind)
